@@ -7,8 +7,8 @@
                every variable (Spec/MakeEval.v, for every fuel) unchanged
    wf_program: what the makefile parser can produce (no '$' in literal chunks
                and names, the value text does not start with a space) *)
-From PV Require Import Lib.Bytes Model.Redundant Spec.MakeEval Spec.VerdictSound
-  Proofs.RedundantRefuted Proofs.RedundantSound Proofs.RedundantReads.
+From PV Require Import Lib.Bytes Model.Redundant Spec.MakeEval Spec.VerdictSound Spec.SingleFile
+  Proofs.RedundantRefuted Proofs.RedundantSound Proofs.RedundantReads Proofs.RedundantSingle.
 
 (* The full statement: for every well-formed program (any file labels / line
    numbers on which the model does not panic), every verdict of the model flags
@@ -43,6 +43,17 @@ Theorem C17_verdict_sound_partial :
     deletable p (vd_flagged vd).
 Proof. exact verdict_sound_partial. Qed.
 Print Assumptions C17_verdict_sound_partial.
+
+(* The same in plain terms for the common case: one makefile (all lines in one
+   file, numbered from 1), no '!=' at all, no '$' in the text of a ':='
+   assignment.  Then every verdict is sound.  (The "included file" arm of the
+   default case is unreachable: all include paths are equal.) *)
+Theorem C17_single_file_sound :
+  forall (p : program) (vs : list verdict) (vd : verdict),
+    wf_program p = true -> single_file p = true -> eager_plain p = true -> no_shell p = true ->
+    check p = Ok vs -> In vd vs -> deletable p (vd_flagged vd).
+Proof. exact single_file_sound. Qed.
+Print Assumptions C17_single_file_sound.
 
 (* Each of the four conditions is needed: dropping it makes the statement false. *)
 Theorem C17_guard_needs_plain_assignments :
@@ -99,6 +110,10 @@ Example C17_guard_satisfiable :
   check prog_good = Ok [mkVerdict 1 0 KRedundant; mkVerdict 2 1 KNoEffect; mkVerdict 2 3 KOverwritten] /\
   forallb (guard prog_good) [mkVerdict 1 0 KRedundant; mkVerdict 2 1 KNoEffect; mkVerdict 2 3 KOverwritten] = true.
 Proof. exact prog_good_facts. Qed.
+
+Example C17_single_file_satisfiable :
+  single_file prog_good = true /\ eager_plain prog_good = true /\ no_shell prog_good = true.
+Proof. exact prog_good_single. Qed.
 
 Example C17_guard_allows_eval_elsewhere :
   wf_program prog_good_eval = true /\ check prog_good_eval = Ok [mkVerdict 2 1 KRedundant] /\
